@@ -199,10 +199,19 @@ def mInter (m : MulCtx) (pt : PointX) (k : Int) (qt : PointX) (l : Int) : Option
   else if l == 0 || qt == none then mMul m pt k
   else if m.endom then mSimEndom m pt k qt l else none
 
-/-- `e2l`: ep2_mul_sim_lot, n ≤ 10 (the bucket branch above ten points is not modelled) -/
+/-- `e2l`: ep2_mul_sim_lot: interleaved binary NAFs of the 4n points for n ≤ 10, buckets above -/
 def modelLot (m : MulCtx) (pks : List (PointX × Int)) : Option String := do
   if pks.length == 0 then some "inf" else
-  if pks.length > 10 then none else
+  if pks.length > 10 then
+    let (f0, f1, x, bn) ← m.frb
+    let w := max 2 (bitLen pks.length - 2)
+    let nafs := pks.map fun (pk : PointX × Int) =>
+      (recFrb m x bn pk.2).map fun kj => (recNaf (m.fpbits + 1) kj.natAbs w).map fun ds => if kj < 0 then ds.map (fun dg => -dg) else ds
+    if nafs.any (fun r => r.any Option.isNone) then some "err" else
+    let nafs := nafs.map fun r => r.map fun x => x.getD []
+    let len := (nafs.map fun r => (r.map List.length).foldl max 0).foldl max 0
+    some (fmtPoint m.c.d (Relic.Model.Ep2Mul.simLotBucket4 (xops m.c) (psiOf m.c f0 f1) (pks.map (·.1)) nafs (2 ^ (w - 2)) len))
+  else
   let strs ← pks.mapM fun (pk : PointX × Int) => glsStrings m pk.1 pk.2
   let all := strs.flatten
   if all.any (fun s => s.2.isNone) then some "err" else
@@ -405,6 +414,19 @@ def handle (e : Env) (w : Nat) (op : String) (args : List String) (got : String)
     match (mkCtx e w).bind fun mc => modelSim mc v p' k q' m with
     | some mdl => some { model := mdl, spec := [spec], tags := ["sim." ++ v, "model.sim." ++ v] ++ (if mdl == "err" then ["model.err"] else []) }
     | none => some { model := got, spec := [spec], tags := ["sim." ++ v, "classC.sim." ++ v] }
+  | "e2frb", [k] => do
+    -- bn_rec_frb as the twist routines call it: model = the integer form (Model/Ep2Mul), spec = the sub-scalars the library returned
+    -- recombine to k modulo r with λ = p mod r
+    let k ← pI k
+    let mc ← mkCtx e w
+    let (_, _, x, bn) ← mc.frb
+    let fmtI := fun (a : Int) => (if a < 0 then "-" else "") ++ natToHex a.natAbs
+    let mdl := String.intercalate "," ((recFrb mc x bn k).map fmtI)
+    let lam : Int := ((d.p % e.n : Nat) : Int)
+    let ok := match (got.splitOn ",").mapM C03.parseHexInt' with
+      | some [k0, k1, k2, k3] => (k0 + k1 * lam + k2 * lam ^ 2 + k3 * lam ^ 3 - k) % (e.n : Int) == 0
+      | _ => false
+    some { model := mdl, spec := [if ok then got else "<k0,k1,k2,k3 with k0 + k1 l + k2 l^2 + k3 l^3 = k mod r>"], tags := ["model.rec_frb" ++ (if bn then ".bn" else ".base")] }
   | "e2wb", [len, pack, q] => do
     -- C07: ep2_write_bin; the model is Model/Ep2Conv.writeBin with the sign rule of ep2_upk (what the property needs for decode ∘ encode = id)
     let len ← len.toNat?
@@ -565,7 +587,7 @@ def handle (e : Env) (w : Nat) (op : String) (args : List String) (got : String)
           | _, _ => none
         let pks ← pairsL n rest
         match (mkCtx e w).bind fun mc => modelLot mc pks with
-        | some mdl => some { model := mdl, spec := [fmtPoint d r], tags := [op, "model.sim_lot.naf"] ++ (if mdl == "err" then ["model.err"] else []) }
+        | some mdl => some { model := mdl, spec := [fmtPoint d r], tags := [op, if n > 10 then "model.sim_lot.bucket" else "model.sim_lot.naf"] ++ (if mdl == "err" then ["model.err"] else []) }
         | none => some { model := got, spec := [fmtPoint d r], tags := [op, "classC.sim_lot" ++ (if n > 10 then ".bucket" else "")] }
       | _ => none
     else none
